@@ -7,7 +7,6 @@ use crate::ops::*;
 use crate::trace::*;
 use kanata_parser::custom_action::FakeKeyAction;
 use kanata_parser::keys::OsCode;
-use kanata_state_machine::kanata::handle_fakekey_action;
 use kanata_state_machine::oskbd::{KeyEvent, KeyValue};
 use kanata_state_machine::Kanata;
 use kanata_tcp_protocol::ServerMessage;
@@ -94,7 +93,7 @@ pub fn run_b(cfg: &str, files: &[(String, String)], ops: &[Op], opts: &BOpts) ->
                                 2 => FakeKeyAction::Tap,
                                 _ => FakeKeyAction::Toggle,
                             };
-                            handle_fakekey_action(action, k.layout.bm(), kanata_parser::cfg::FAKE_KEY_ROW, idx as u16);
+                            crate::exec_a::tcp_act_on_fake_key(&mut k, action, idx as u16);
                         }
                     }
                     let _ = wake.try_send(KeyEvent { code: OsCode::KEY_RESERVED, value: KeyValue::WakeUp });
@@ -134,7 +133,7 @@ pub fn run_b(cfg: &str, files: &[(String, String)], ops: &[Op], opts: &BOpts) ->
                                     2 => FakeKeyAction::Tap,
                                     _ => FakeKeyAction::Toggle,
                                 };
-                                handle_fakekey_action(action, k.layout.bm(), kanata_parser::cfg::FAKE_KEY_ROW, idx as u16);
+                                crate::exec_a::tcp_act_on_fake_key(&mut k, action, idx as u16);
                             }
                         }
                         let _ = tx.try_send(KeyEvent { code: OsCode::KEY_RESERVED, value: KeyValue::WakeUp });
